@@ -498,6 +498,20 @@ theorem step_base (o : Ops) (s s' : MSt) (e : MEv) (h : mstep o s e = .ok s') :
     injection h with h
     rw [← h]
     simp only [track_base]; rfl
+  | cref r =>
+    simp only [mstep] at h
+    split at h
+    · injection h with h
+      rw [← h]
+      unfold handleData
+      split <;> rfl
+    · cases h
+  | eref r =>
+    simp only [mstep] at h
+    injection h with h
+    rw [← h]
+    unfold handleData
+    split <;> rfl
 
 /-- **The base sub-machine**: for every event sequence in the model's domain the base URI and base stack the machine ends with are what
 M-base computes from the tag events alone — no handler, no text, no option has any influence on them. -/
